@@ -641,7 +641,7 @@ add('c07-shape-from-bounds-rounds-down', ['C07', 'C13'], 'fire', 'Slicer._proces
 add('c07-shape-from-bounds-rounds-up', ['C07', 'C13'], 'silent', 'Slicer._process_sub_slice',
     'if sub_slice.step is not None:\n        step *= sub_slice.step',
     'if sub_slice.step is not None:\n        step *= sub_slice.step\n        _n = -(-(stop - start) // step)',
-    'silent twin: ceiling division')
+    'silent twin: ceiling division', module=S)
 add('c01-plates-compare-by-value', ['C01', 'C07'], 'fire', 'Plate.get_volume',
     'def get_volume(self', 'def __eq__(self, other):\n    return isinstance(other, Plate) and self.name == other.name\n\ndef get_volume(self',
     'the same-plate test of the plate transfer becomes a value comparison')
